@@ -474,7 +474,10 @@ func reloadCase(c *h.Case) {
 	env.healthPort = target.port
 	targetOpen := true
 	if rng.Intn(2) == 0 {
-		target.close()
+		if err := target.fail(false); err != nil {
+			run.Inconclusive("reload: health target could not be switched to refusing")
+			return
+		}
 		targetOpen = false
 	}
 
@@ -632,7 +635,10 @@ func reloadCase(c *h.Case) {
 	for i, st := range steps {
 		if st.Toggle {
 			if targetOpen {
-				target.close()
+				if err := target.fail(false); err != nil {
+					run.Inconclusive("reload: health target could not be switched to refusing")
+					return
+				}
 			} else if err := target.open(); err != nil {
 				run.Inconclusive("reload: health target could not be reopened")
 				return
@@ -1008,10 +1014,21 @@ func settleAndJudge(c *h.Case, env *reloadEnv, g *histGen, svc *client.Service, 
 		if resent+retried > 0 {
 			run.Count("registrations_repeated_after_timeout_or_error", int64(resent+retried))
 		}
-		if retried > 0 {
+		clientOrder := false
+		for _, txt := range startErrorTexts(n) {
+			// "proxy [x] already exists" / "port already used": the server still held the old registration
+			// when the new one arrived. (Other texts, e.g. "port unavailable", are the server's own business.)
+			if strings.Contains(txt, "already exists") || strings.Contains(txt, "already used") {
+				clientOrder = true
+			}
+		}
+		if retried > 0 && !clientOrder {
+			run.Count("start_errors_not_caused_by_message_order", int64(retried))
+		}
+		if retried > 0 && clientOrder {
 			// every name and port of the case is its own: the server has no reason to refuse anything, unless
 			// the client sent its messages in an order that makes old and new registrations collide
-			vio("start-error-without-cause-during-reload", "step %d: %s went through %d start error(s) although names and ports of the history never collide when closes precede registrations; transitions %+v, server events %+v", stepIdx, n, retried, phaseHistory(n), regEvents(n))
+			vio("start-error-without-cause-during-reload", "step %d: %s went through %d start error(s) because the server still held an older registration (names and ports of the history never collide when closes precede registrations); error texts %q, transitions %+v, server events %+v", stepIdx, n, retried, startErrorTexts(n), phaseHistory(n), regEvents(n))
 			return false
 		}
 		if at > t.gens+resent+retried {
